@@ -130,7 +130,10 @@ def run(ctx):
     # filters over the scalar verification table, so that the ORM visitors really translate every literal kind (and read its py_val)
     T_FILTERS = ["d1 eq 2020-01-01", "dt1 ge 2020-01-01T10:00:00Z", "s1 eq 01234567-89ab-cdef-0123-456789abcdef", "d1 in (2020-01-01, 1999-12-31)",
                  "dt1 lt 2020-01-01T00:00:00+02:00 or d1 ne null", "i1 add 2 gt i2 and contains(s1, 'a')", "f1 lt 1.5 and b1 eq true", "year(d1) eq 2020 and hour(dt1) lt 12",
-                 "not (s1 in ('a', 'b')) and length(s2) gt 1", "dt1 eq 2020-02-29T23:59:59.5Z", "d1 ge 0001-01-01 and d1 le 9999-12-31"]
+                 "not (s1 in ('a', 'b')) and length(s2) gt 1", "dt1 eq 2020-02-29T23:59:59.5Z", "d1 ge 0001-01-01 and d1 le 9999-12-31",
+                 # built-ins called with NAMED parameters (a backend may accept or refuse them; it must not take them out of the tree)
+                 "contains(field=s1, substr='a')", "length(arg=s1) eq 1", "substring(fullstr=s1, index=1) eq 'x'", "concat(a=s1, b=s2) eq 'ab' and tolower(x=s1) eq 'a'",
+                 "f.g(x=s1, y=1)", "i1 in (1, 2, 1) and round(number=f1) eq 1"]
     for f in gens.VALID_FILTERS + T_FILTERS:
         try:
             nodes.append(impl.real_parse_ast(f))
